@@ -10,6 +10,6 @@ import (
 func init() {
 	c03.RedisCfg = redisCfg
 	registry["C03"] = entry{run: c03.Run, replay: func(r *monitor.Run, d json.RawMessage) { c03.Replay(r, d) }, level: "exploration",
-		rule: "cases = generated (message sequence, acknowledgement script, cut script) triples for one persistent subscriber: QoS1/2 mixes, acks prompt/late/out of order/never/PUBREC-without-PUBCOMP/error codes, abrupt closes and DISCONNECTs at arbitrary packet counts with or without a PINGREQ barrier, Receive Maximum in {absent,1,2,3,10,65535} x max_inflight in {1,2,5,100}, v3.1.1/v5, memory and redis queues; monitors on the subscriber's wire: window bound, identifier uniqueness, resume order/DUP/ids, at-least-once, no retransmission after confirmed acks; thorough adds a 70000-message wrap-around of the identifier space. Non-trivial = at least one retransmission observed; distinct by scenario. A third of the scenarios take their messages from a publisher that sets DUP; a quarter of the v5 scenarios lower the Receive Maximum to 1 on every resume; half run with the default inflight_expiry.",
+		rule: "cases = generated (message sequence, acknowledgement script, cut script) triples for one persistent subscriber: QoS1/2 mixes, acks prompt/late/out of order/never/PUBREC-without-PUBCOMP/error codes, abrupt closes and DISCONNECTs at arbitrary packet counts with or without a PINGREQ barrier, Receive Maximum in {absent,1,2,3,10,65535} x max_inflight in {1,2,5,100}, v3.1.1/v5, memory and redis queues; monitors on the subscriber's wire: window bound, identifier uniqueness, resume order/DUP/ids, at-least-once, no retransmission after confirmed acks; thorough adds a 70000-message wrap-around of the identifier space. Non-trivial = at least one retransmission observed; distinct by scenario. A third of the scenarios take their messages from a publisher that sets DUP; a quarter of the v5 scenarios lower the Receive Maximum to 1 on every resume; half run with the default inflight_expiry. Plus directed cases: the same retained QoS 1/2 messages replayed to two persistent sessions with different identifier histories (each retransmits under its own identifiers, DUP only on retransmissions; v3.1.1/v5, 3 interleavings, mem and redis); unacknowledged messages of exactly the declared Maximum Packet Size and one byte less across a resume with the same and with a smaller maximum.",
 		assumptions: []string{"the subscriber's count of unacknowledged messages is a lower bound of the broker's", "no drop condition configured (queue 1000, no expiry)", "quiet periods (150 ms) only serve to catch optional extras, never to raise an alarm by themselves except for 'retransmission after confirmed ack'"}}
 }
